@@ -146,6 +146,15 @@ Theorem C14_unique_idx_last_positional :
     /\ forall i, last_of_run_b xs i = true <-> last_of_run xs i.
 Proof. intros; split; [apply last_positional|apply last_of_run_b_spec]. Qed.
 
+(* (16) Keep::First positionally, when nulls form a prefix and/or suffix: index i is reported iff cell i
+        is non-null and cell i-1 (if any) is not the same value *)
+Theorem C14_unique_idx_first_positional :
+  forall xs : list (option Z),
+    nulls_at_ends xs ->
+    firstZ xs = filter (first_of_run_b xs) (seq 0 (length xs))
+    /\ forall i, first_of_run_b xs i = true <-> first_of_run xs i.
+Proof. intros xs H; split; [apply first_positional; exact H|apply first_of_run_b_spec]. Qed.
+
 (* ---- non-vacuity ------------------------------------------------------------------------------- *)
 
 Example C14_ex_cut_premises :
@@ -196,6 +205,13 @@ Example C14_ex_unique_values :
   /\ lastZ [Some 1; None; Some 1] = [0; 2]%nat.
 Proof. vm_compute. repeat split. Qed.
 
+(* the precondition of (16) is needed: Keep::First does not treat an inner null as a run separator
+   (Keep::Last does, see C14_ex_unique_values); outside the property's quantifier *)
+Example C14_ex_first_needs_nulls_at_ends :
+  firstZ [Some 1; None; Some 1] = [0]%nat
+  /\ filter (first_of_run_b [Some 1; None; Some 1]) (seq 0 3) = [0; 2]%nat.
+Proof. vm_compute. auto. Qed.
+
 Print Assumptions C14_cut_label_iff_enclosing_bin.
 Print Assumptions C14_cut_enclosing_bin_unique.
 Print Assumptions C14_cut_err_iff_outside_all_bins.
@@ -213,3 +229,4 @@ Print Assumptions C14_unique_idx_never_null.
 Print Assumptions C14_runs_decomposition.
 Print Assumptions C14_unique_values_distinct_and_complete.
 Print Assumptions C14_unique_idx_last_positional.
+Print Assumptions C14_unique_idx_first_positional.
